@@ -9,7 +9,13 @@ signer); (2) maps: `addUserMetadataToDescriptor` = legality check + merge, looku
 API on what was signed (`runWith_eq`); (5) `model_holds` and the readable theorems.
 -/
 import NotationModel.Model.C07
+import NotationModel.Props.C11
+import NotationModel.Generated.SrcC07
+import NotationModel.Generated.SrcC07b
+import NotationModel.Generated.SrcC07c
+import NotationModel.Generated.SrcC07d
 set_option linter.unusedSimpArgs false
+set_option linter.unusedVariables false
 namespace NotationModel.C07
 open NotationModel.Facts
 
@@ -23,8 +29,7 @@ theorem facts_guards : guardPresent "signOpts.ExpiryDuration<0" = true ∧
 
 theorem facts_reserved : c07ReservedPrefixes = ["io.cncf.notary"] := by decide
 
-theorem facts_returns : c07VerifyBlobReturns = "payload.TargetArtifact" ∧
-    c07UserMetadataReturns = "payload.TargetArtifact.Annotations" := by decide
+theorem facts_returns : c07UserMetadataReturns = "payload.TargetArtifact.Annotations" := by decide
 
 def specAlg : KeySpec → String
   | .rsa2048 => "PS256" | .rsa3072 => "PS384" | .rsa4096 => "PS512"
@@ -645,7 +650,7 @@ def obsSpec (i : Input) : Obs :=
   else noSignature
 
 theorem userMetadataOf_eq (p : DescObs) : userMetadataOf p = p.annotations := by
-  simp [userMetadataOf, facts_returns.2]
+  simp [userMetadataOf, facts_returns]
 
 theorem runWith_eq (C : Crypto) (key : C.Key) (trust : C.Pub → Bool) (ht : trust (C.pub key) = true)
     (nowNs : Int) (i : Input) (hwf : wf i = true) : runWith C key trust nowNs i = obsSpec i := by
@@ -684,7 +689,7 @@ theorem runWith_eq (C : Crypto) (key : C.Key) (trust : C.Pub → Bool) (ht : tru
         simp only [verifyBlob, hps, verifySpec, hk, hsz]
         have ha : (envelopeOf C key i (expectedAttrs i nowNs)).attrs.alg = specAlg i.keySpec := rfl
         have hp : (envelopeOf C key i (expectedAttrs i nowNs)).attrs.payload = expectedPayload i := rfl
-        simp only [ha, hp, verifierDigestAlg_eq, digestOfFirst_all, facts_returns.1]
+        simp only [ha, hp, verifierDigestAlg_eq, digestOfFirst_all]
         by_cases he : expiredAtVerify i = true
         · simp [he]
         · simp only [he, Bool.not_false, Bool.true_and, Bool.not_true, Bool.false_eq_true, if_false]
@@ -1185,4 +1190,376 @@ example : Holds exampleBlob { (obsSpec exampleBlob) with userMetadata := some []
 example : Holds exampleBlob { (obsSpec exampleBlob) with verified := false, returned := none, userMetadata := none } = false := by
   decide
 
+/-! ### tie to the translated source (docs/TIE_BRIEF.md)
+
+`Generated/SrcC07*.lean` are translated from the Go source on every run (`extract/go2lean_c07.go`). The theorems
+below say, for ALL inputs and EVERY choice of the oracles (Src/TypesC07.lean), that the translated functions accept
+exactly the arguments the model accepts and compute the descriptor / digest algorithm the model computes.
+`validateSignArguments` / `validateSigMediaType` are C11's translations and theorems (imported). -/
+
+namespace Tie
+open NotationModel.Src NotationModel.Src.«notation»
+
+/-- closes what is left after the case analysis of a tie proof, whatever shape the translated text has: splits
+every remaining `if` / `match`, simplifies with the hypotheses, discharges impossible list lengths -/
+macro "tie_finish" : tactic =>
+  `(tactic| repeat' (first
+      | rfl | omega | (exfalso; omega) | (intros; exfalso; omega) | split
+      | (simp_all [GoLite.deref, GoLite.idPure, GoLite.len, Option.isSome_iff_ne_none, Option.isNone_iff_eq_none]; done)
+      | (intros; simp_all; done)
+      | (simp_all [GoLite.deref, GoLite.idPure, GoLite.len, Option.isSome_iff_ne_none, Option.isNone_iff_eq_none])))
+
+/-! #### `validateContentMediaType` -/
+
+theorem source_validateContentMediaType_refines_model (env : BlobEnv) (s : String) :
+    (validateContentMediaType env s).isNone = (s == "" || (env.parseMediaType s).isNone) := by
+  unfold validateContentMediaType
+  simp only [Id.run, BlobEnv.ParseMediaType]
+  by_cases h : s = "" <;> by_cases hp : (env.parseMediaType s).isSome = true <;>
+    simp [h, hp, GoLite.idPure] <;> (try rfl) <;> simp_all [GoLite.idPure]
+
+/-! #### `SignBlob`: argument checks and what is handed to the signer -/
+
+/-- what notation.SignBlob demands of its arguments, written out (`argsValid` is C11's characterisation of
+`validateSignArguments`: signer not nil, expiry a non-negative whole number of seconds, one of the two envelope types) -/
+def signBlobArgsLegal (env : BlobEnv) (signer : Option Signer) (reader : Option io.Reader) (o : SignBlobOptions) : Bool :=
+  C11.Tie.argsValid signer o.SignerSignOptions && reader.isSome && o.ContentMediaType != "" &&
+  (env.parseMediaType o.ContentMediaType).isNone
+
+/-- TIE (translated source): for EVERY signer, reader, options and oracles, notation.SignBlob either refuses
+(no signature, no signer info, an error - and the signer is not asked) or returns exactly what the signer's SignBlob
+returns for the descriptor generator built from THIS reader, media type and metadata and for the embedded signer
+options; it refuses exactly the illegal arguments. -/
+theorem source_SignBlob_refines_model (env : BlobEnv) (signer : Option Signer) (reader : Option io.Reader)
+    (o : SignBlobOptions) :
+    (signBlobArgsLegal env signer reader o = true →
+      SignBlob env signer reader o =
+        env.signerSignBlob (getDescriptorFunc env reader o.ContentMediaType o.UserMetadata) o.SignerSignOptions) ∧
+    (signBlobArgsLegal env signer reader o = false →
+      (SignBlob env signer reader o).1 = none ∧ (SignBlob env signer reader o).2.1 = none ∧
+      (SignBlob env signer reader o).2.2.isSome = true) := by
+  have hv := C11.Tie.source_validateSignArguments_refines_model signer o.SignerSignOptions
+  have hc := source_validateContentMediaType_refines_model env o.ContentMediaType
+  unfold SignBlob signBlobArgsLegal
+  simp only [Id.run, BlobEnv.SignerSignBlob]
+  cases hva : validateSignArguments signer o.SignerSignOptions <;> rw [hva] at hv <;>
+  cases reader <;>
+  by_cases hm : o.ContentMediaType = "" <;>
+  cases hvc : validateContentMediaType env o.ContentMediaType <;> rw [hvc] at hc <;>
+  simp_all [GoLite.idPure] <;> (try rfl) <;> (try (intro h; simp_all))
+
+/-- the options notation.SignBlob is called with in the model's round trip -/
+def formatMediaType : Format → String
+  | .jws => jws.MediaTypeEnvelope
+  | .cose => cose.MediaTypeEnvelope
+
+def kvPairs (m : List KV) : GoLite.Map String String := m.map (fun x => (x.k, x.v))
+
+def signOptsOf (i : Input) : SignBlobOptions :=
+  { SignerSignOptions := { SignatureMediaType := formatMediaType i.format, ExpiryDuration := i.durationNs },
+    ContentMediaType := i.contentMediaType, UserMetadata := kvPairs i.metadata }
+
+/-- the model's own argument checks of a blob signing call -/
+def modelBlobArgsLegal (i : Input) : Bool :=
+  signArgsOk i.durationNs && i.contentMediaType != "" && i.mediaTypeValid
+
+/-- **The translated SignBlob accepts exactly the arguments the model accepts**: with a signer and a reader at
+hand and `mime.ParseMediaType` answering what the input says (`mediaTypeValid`), for every input. -/
+theorem source_SignBlob_accepts_iff_model (env : BlobEnv) (s : Signer) (r : io.Reader) (i : Input)
+    (henv : (env.parseMediaType i.contentMediaType).isNone = i.mediaTypeValid) :
+    signBlobArgsLegal env (some s) (some r) (signOptsOf i) = modelBlobArgsLegal i := by
+  unfold signBlobArgsLegal modelBlobArgsLegal C11.Tie.argsValid signOptsOf
+  rw [signArgsOk_eq]
+  have hf : (formatMediaType i.format == jws.MediaTypeEnvelope || formatMediaType i.format == cose.MediaTypeEnvelope) = true := by
+    cases i.format <;> decide
+  simp only [henv, hf, Option.isSome_some, Bool.true_and, Bool.and_true, time.Second]
+  by_cases h0 : 0 ≤ i.durationNs
+  · simp [h0, Int.tmod_eq_emod_of_nonneg h0]
+  · simp [h0]
+
+/-- and the model refuses what fails these checks (so both refuse the same calls) -/
+theorem model_refuses_illegal_blob_args (C : Crypto) (key : C.Key) (i : Input) (nowNs : Int) (hk : i.kind = .blob)
+    (h : modelBlobArgsLegal i = false) : signModel C key i nowNs = none := by
+  unfold modelBlobArgsLegal at h
+  unfold signModel
+  by_cases h1 : signArgsOk i.durationNs = true
+  · by_cases h2 : i.contentMediaType = ""
+    · simp [h1, hk, h2]
+    · have h3 : i.mediaTypeValid = false := by simp_all
+      simp [h1, hk, h2, h3]
+  · simp [h1]
+
+/-! #### the descriptor generator `getDescriptorFunc` returns -/
+
+/-- TIE (translated source): for EVERY reader, media type, metadata, digest algorithm and oracles: if copying the
+reader into the digester fails, that error comes back; otherwise the descriptor handed to
+`addUserMetadataToDescriptor` (C11's translation) has the stated media type, the digester's digest, the number of
+bytes `io.Copy` reports as its size, and NO annotations - and what the merge returns is returned. -/
+theorem source_getDescriptorFunc_refines_model (env : BlobEnv) (reader : Option io.Reader) (cmt : String)
+    (md : GoLite.Map String String) (alg : digest.Algorithm) :
+    getDescriptorFunc env reader cmt md alg =
+      if (env.Copy alg reader).2.isSome then (default, (env.Copy alg reader).2)
+      else
+        ((addUserMetadataToDescriptor
+            { MediaType := cmt, Digest := env.digest alg reader, Size := (env.Copy alg reader).1, Annotations := [] } md).1,
+         (addUserMetadataToDescriptor
+            { MediaType := cmt, Digest := env.digest alg reader, Size := (env.Copy alg reader).1, Annotations := [] } md).2.1) := by
+  unfold getDescriptorFunc
+  simp only [Id.run, BlobEnv.Digest, GoLite.idPure]
+  (try (repeat' split)) <;> first | rfl | simp_all
+
+/-- `io.Copy`'s two results: the byte count and no error, or an error -/
+theorem copy_results (env : BlobEnv) (alg : digest.Algorithm) (reader : Option io.Reader) :
+    env.Copy alg reader = match env.copy alg reader with
+      | .ok n => (n, none)
+      | .error e => (0, some e) := rfl
+
+/-- the descriptor the model hands to its metadata merge is that descriptor (media type, digest, size; no annotations) -/
+theorem model_blobDescriptor_matches (i : Input) (dg : String) (n : Int) :
+    let d := blobDescriptor i dg n []
+    (d.mediaType, d.digest, d.size, d.annotations, d.urls, d.platform, d.data, d.artifactType) =
+      (i.contentMediaType, dg, n, [], [], false, "", "") := rfl
+
+/-! #### `notation.VerifyBlob`: argument checks, mapping of the options, what is returned -/
+
+def verifyBlobArgsLegal (env : BlobEnv) (v : Option BlobVerifier) (reader : Option io.Reader) (sig : Bytes)
+    (o : VerifyBlobOptions) : Bool :=
+  v.isSome && reader.isSome && sig != [] &&
+  (o.ContentMediaType == "" || (env.parseMediaType o.ContentMediaType).isNone) &&
+  (o.SignatureMediaType == jws.MediaTypeEnvelope || o.SignatureMediaType == cose.MediaTypeEnvelope)
+
+/-- what notation.VerifyBlob makes of the verifier's answer: an error is handed on; an outcome without envelope
+content (verification skipped) comes back with the zero descriptor; otherwise the payload of the VERIFIED envelope is
+decoded and its `TargetArtifact` is the descriptor returned (the repair d14a4b1) -/
+def verifyBlobResult (env : BlobEnv) (r : Option BlobOutcome × Option GoLite.Err) :
+    ocispec.Descriptor × Option BlobOutcome × Option GoLite.Err :=
+  if r.2.isSome then (default, none, r.2)
+  else if (GoLite.deref r.1).EnvelopeContent.isNone then (default, r.1, none)
+  else
+    let content := (GoLite.deref (GoLite.deref r.1).EnvelopeContent).Payload.Content
+    if (env.unmarshalPayload content default).2.isSome then (default, none, (env.unmarshalPayload content default).2)
+    else ((env.unmarshalPayload content default).1.TargetArtifact, r.1, none)
+
+/-- TIE (translated source): for EVERY verifier, reader, signature, options and oracles, notation.VerifyBlob refuses
+exactly the illegal arguments (without asking the verifier); otherwise it asks the verifier with the descriptor
+generator built from THIS reader, the caller's content media type and required metadata, the signature and the embedded
+verifier options, and returns `verifyBlobResult` of its answer. -/
+theorem source_VerifyBlob_refines_model (env : BlobEnv) (v : Option BlobVerifier) (reader : Option io.Reader)
+    (sig : Bytes) (o : VerifyBlobOptions) :
+    (verifyBlobArgsLegal env v reader sig o = true →
+      VerifyBlob env v reader sig o =
+        verifyBlobResult env (env.verifierVerifyBlob
+          (getDescriptorFunc env reader o.ContentMediaType o.BlobVerifierVerifyOptions.UserMetadata) sig
+          o.BlobVerifierVerifyOptions)) ∧
+    (verifyBlobArgsLegal env v reader sig o = false →
+      (VerifyBlob env v reader sig o).1 = default ∧ (VerifyBlob env v reader sig o).2.1 = none ∧
+      (VerifyBlob env v reader sig o).2.2.isSome = true) := by
+  have hc : (validateContentMediaType env o.ContentMediaType).isSome =
+      !(o.ContentMediaType == "" || (env.parseMediaType o.ContentMediaType).isNone) := by
+    rw [← source_validateContentMediaType_refines_model]
+    cases validateContentMediaType env o.ContentMediaType <;> rfl
+  have hs : (validateSigMediaType o.SignatureMediaType).isSome =
+      !(o.SignatureMediaType == jws.MediaTypeEnvelope || o.SignatureMediaType == cose.MediaTypeEnvelope) := by
+    rw [← C11.Tie.source_validateSigMediaType_refines_model]
+    cases validateSigMediaType o.SignatureMediaType <;> rfl
+  unfold VerifyBlob verifyBlobArgsLegal verifyBlobResult
+  simp only [Id.run, BlobEnv.VerifierVerifyBlob, BlobEnv.UnmarshalPayload, VerifyBlobOptions.SignatureMediaType,
+    VerifyBlobOptions.UserMetadata, GoLite.idPure] at *
+  refine ⟨fun hl => ?_, fun hl => ?_⟩
+  · -- legal arguments: the verifier's answer and the decoding of its payload, whatever they are
+    by_cases he : (env.verifierVerifyBlob
+        (getDescriptorFunc env reader o.ContentMediaType o.BlobVerifierVerifyOptions.UserMetadata) sig
+        o.BlobVerifierVerifyOptions).2 = none <;>
+    by_cases hn : (GoLite.deref (env.verifierVerifyBlob
+        (getDescriptorFunc env reader o.ContentMediaType o.BlobVerifierVerifyOptions.UserMetadata) sig
+        o.BlobVerifierVerifyOptions).1).EnvelopeContent = none <;>
+    by_cases hu : (env.unmarshalPayload (GoLite.deref (GoLite.deref (env.verifierVerifyBlob
+        (getDescriptorFunc env reader o.ContentMediaType o.BlobVerifierVerifyOptions.UserMetadata) sig
+        o.BlobVerifierVerifyOptions).1).EnvelopeContent).Payload.Content default).2 = none <;>
+    (cases v <;> cases reader <;> cases sig <;>
+     by_cases hvc : (validateContentMediaType env o.ContentMediaType).isSome = true <;>
+     by_cases hvs : (validateSigMediaType o.BlobVerifierVerifyOptions.SignatureMediaType).isSome = true <;>
+     simp_all [GoLite.idPure, GoLite.len] <;> tie_finish)
+  · -- illegal arguments: refused before the verifier is asked
+    cases v <;> cases reader <;> cases sig <;>
+    by_cases hvc : (validateContentMediaType env o.ContentMediaType).isSome = true <;>
+    by_cases hvs : (validateSigMediaType o.BlobVerifierVerifyOptions.SignatureMediaType).isSome = true <;>
+    by_cases hcm : o.ContentMediaType = "" <;>
+    by_cases hj : o.BlobVerifierVerifyOptions.SignatureMediaType = jws.MediaTypeEnvelope <;>
+    simp_all [GoLite.idPure, GoLite.len] <;> tie_finish
+
+/-- the model's blob verification returns the verified payload's descriptor too -/
+theorem model_verifyBlob_returns_payload {C : Crypto} (trust : C.Pub → Bool) (nowSec : Int) (b : Blob) (n : Int)
+    (stated : String) (want : List KV) (e : Envelope C) (r : DescObs)
+    (h : verifyBlob trust nowSec b n stated want e = some r) : r = e.attrs.payload := by
+  unfold verifyBlob at h
+  repeat' split at h
+  all_goals first | (cases h; rfl) | cases h | (simp at h; exact h.symm) | simp_all
+
+/-! #### `envelope.SanitizeTargetArtifact` -/
+
+/-- TIE (translated source): for EVERY descriptor exactly media type, digest, size and annotations survive. (The
+result type has no other field: a version that copied `URLs`, `Data`, `Platform` or `ArtifactType`, or dropped one of
+the four, does not even translate.) -/
+theorem source_SanitizeTargetArtifact_refines_model (d : ocispec.FullDescriptor) :
+    envelope.SanitizeTargetArtifact d =
+      { MediaType := d.MediaType, Digest := d.Digest, Size := d.Size, Annotations := d.Annotations } := by
+  unfold envelope.SanitizeTargetArtifact
+  simp only [Id.run, GoLite.idPure]
+
+/-- the two descriptor types seen from the model -/
+def kvOfPairs (m : GoLite.Map String String) : List KV := m.map (fun p => ⟨p.1, p.2⟩)
+def fullDescOf (d : ocispec.FullDescriptor) : FullDesc :=
+  { mediaType := d.MediaType, digest := d.Digest, size := d.Size, annotations := kvOfPairs d.Annotations,
+    urls := d.URLs, platform := d.Platform.isSome, data := d.Data, artifactType := d.ArtifactType }
+def descObsOf (d : ocispec.Descriptor) : DescObs :=
+  { mediaType := d.MediaType, digest := d.Digest, size := d.Size, annotations := kvOfPairs d.Annotations, extraKeys := [] }
+
+/-- **the translated sanitiser computes the model's payload** (`payloadOf` over the regenerated field list), for
+every descriptor whatever its extra fields -/
+theorem source_SanitizeTargetArtifact_matches_model (d : ocispec.FullDescriptor) :
+    descObsOf (envelope.SanitizeTargetArtifact d) = payloadOf Facts.c07GenericSignSanitizes (fullDescOf d) := by
+  rw [source_SanitizeTargetArtifact_refines_model, (payloadOf_sanitised (fullDescOf d)).1]
+  rfl
+
+/-! #### digest algorithm from the key spec (signer) and from the signature algorithm (verifier) -/
+
+def keyTypeName : signature.KeyType → String
+  | .KeyTypeRSA => "RSA" | .KeyTypeEC => "EC" | .zero => ""
+def algName : signature.Algorithm → String
+  | .AlgorithmPS256 => "PS256" | .AlgorithmPS384 => "PS384" | .AlgorithmPS512 => "PS512"
+  | .AlgorithmES256 => "ES256" | .AlgorithmES384 => "ES384" | .AlgorithmES512 => "ES512" | .zero => ""
+def digestName : digest.Algorithm → String
+  | .SHA256 => "SHA256" | .SHA384 => "SHA384" | .SHA512 => "SHA512" | .unknown => ""
+
+/-- the key spec of the translated code for a key spec of the model -/
+def srcKeySpec (k : KeySpec) : signature.KeySpec :=
+  match k with
+  | .rsa2048 => ⟨.KeyTypeRSA, 2048⟩ | .rsa3072 => ⟨.KeyTypeRSA, 3072⟩ | .rsa4096 => ⟨.KeyTypeRSA, 4096⟩
+  | .ec256 => ⟨.KeyTypeEC, 256⟩ | .ec384 => ⟨.KeyTypeEC, 384⟩ | .ec521 => ⟨.KeyTypeEC, 521⟩
+
+/-- the hand-written copies of notation-core-go's tables agree with the tables regenerated from the module's
+source, on the six supported key specs and all their algorithms -/
+theorem core_tables_agree (k : KeySpec) :
+    coreSigAlg k.core = some (algName (srcKeySpec k).SignatureAlgorithm) ∧
+    coreHash (algName (srcKeySpec k).SignatureAlgorithm) = some (specDigestAlg k) ∧
+    (keyTypeName (srcKeySpec k).«Type», (srcKeySpec k).Size.toNat) = k.core := by
+  cases k <;> decide
+
+/-- TIE (translated source): signer.getDescriptor looks the hash of the key spec's signature algorithm up in
+`algorithms` and hands the digest algorithm to the generator; an unavailable hash is an error and the generator is not
+asked - for EVERY key spec (supported or not) and generator. -/
+theorem source_getDescriptor_refines_model (ks : signature.KeySpec)
+    (gen : digest.Algorithm → ocispec.Descriptor × Option GoLite.Err) :
+    signer.getDescriptor ks gen =
+      if (GoLite.Map.lookup signer.algorithms ks.SignatureAlgorithm.Hash).2
+      then gen (GoLite.Map.lookup signer.algorithms ks.SignatureAlgorithm.Hash).1
+      else (default, some ⟨"error"⟩) := by
+  unfold signer.getDescriptor
+  simp only [Id.run, GoLite.idPure]
+  (try (repeat' split)) <;> first | rfl | simp_all
+
+/-- **the translated table lookup is the model's**: for each of the six key specs the digest algorithm the
+translated signer derives is the one the model derives from the regenerated tables, which is the hash bound to the key -/
+theorem source_signer_digest_matches_model (k : KeySpec) :
+    (GoLite.Map.lookup signer.algorithms (srcKeySpec k).SignatureAlgorithm.Hash).2 = true ∧
+    some (digestName (GoLite.Map.lookup signer.algorithms (srcKeySpec k).SignatureAlgorithm.Hash).1) = signerDigestAlg k.core ∧
+    signerDigestAlg k.core = some (specDigestAlg k) := by
+  cases k <;> decide
+
+/-- an unsupported key spec has no signature algorithm, hence no hash, hence no digest algorithm: signing a blob is refused -/
+theorem source_getDescriptor_unsupported (ks : signature.KeySpec) (gen : digest.Algorithm → ocispec.Descriptor × Option GoLite.Err)
+    (h : ks.SignatureAlgorithm = .zero) : (signer.getDescriptor ks gen).2.isSome = true := by
+  rw [source_getDescriptor_refines_model, h]
+  have : (GoLite.Map.lookup signer.algorithms signature.Algorithm.zero.Hash).2 = false := by decide
+  simp [this]
+
+/-- what the tail of verifier.VerifyBlob demands, written out -/
+def tailAccepts (env : verifier.VEnv) (gen : digest.Algorithm → ocispec.Descriptor × Option GoLite.Err)
+    (md : GoLite.Map String String) (alg : signature.Algorithm) (p : envelope.Payload) : Bool :=
+  match GoLite.Map.get? verifier.algorithms alg.Hash with
+  | none => false
+  | some da =>
+    (gen da).2.isNone &&
+    !((gen da).1.Digest != p.TargetArtifact.Digest || (gen da).1.Size != p.TargetArtifact.Size ||
+      ((gen da).1.MediaType != "" && (gen da).1.MediaType != p.TargetArtifact.MediaType)) &&
+    (md.length == 0 || (env.verifyUserMetadata p md).isNone)
+
+/-- TIE (translated source): after a successful processSignature and payload decoding, verifier.VerifyBlob accepts
+exactly when the hash of the envelope's signature algorithm is available in `algorithms`, the generator yields a
+descriptor for that digest algorithm, its digest and size equal the payload's, its media type - if the caller stated one -
+equals the payload's, and the required metadata (if any) is verified; the returned error is the outcome's error.
+For EVERY generator, options, outcome and payload. -/
+theorem source_verifyBlobTail_refines_model (env : verifier.VEnv)
+    (gen : digest.Algorithm → ocispec.Descriptor × Option GoLite.Err) (opts : verifier.BlobVerifierVerifyOptions)
+    (outcome : verifier.BlobOutcome) (p : envelope.Payload) (h0 : outcome.Error = none) :
+    (verifier.verifyBlobTail env gen opts none outcome p).2.isNone =
+      tailAccepts env gen opts.UserMetadata outcome.EnvelopeContent.SignerInfo.SignatureAlgorithm p ∧
+    (verifier.verifyBlobTail env gen opts none outcome p).1.Error = (verifier.verifyBlobTail env gen opts none outcome p).2 := by
+  unfold verifier.verifyBlobTail tailAccepts
+  simp only [Id.run, GoLite.idPure, GoLite.Map.lookup, fmt.Sprintf]
+  cases hl : GoLite.Map.get? verifier.algorithms outcome.EnvelopeContent.SignerInfo.SignatureAlgorithm.Hash with
+  | none => simp [GoLite.idPure]
+  | some da =>
+    cases hg : gen da with
+    | mk desc gerr =>
+      by_cases he : gerr.isSome = true
+      · simp [GoLite.idPure, he, hg] <;> (try (intros; simp_all; done))
+      · by_cases h1 : desc.Digest = p.TargetArtifact.Digest <;>
+        by_cases h2 : desc.Size = p.TargetArtifact.Size <;>
+        by_cases h3 : desc.MediaType = "" <;>
+        by_cases h4 : desc.MediaType = p.TargetArtifact.MediaType <;>
+        by_cases hlen : opts.UserMetadata = [] <;>
+        by_cases hum : env.verifyUserMetadata p opts.UserMetadata = none <;>
+        simp_all [GoLite.idPure, GoLite.len, bne_iff_ne, List.length_pos_iff, List.length_eq_zero_iff] <;>
+        (try omega) <;> (try (repeat' split)) <;>
+        (try (first | rfl | (simp_all [List.length_pos_iff, List.length_eq_zero_iff]; done) | omega | (intros; simp_all; done) |
+          (refine ⟨?_, rfl⟩; cases hv : env.verifyUserMetadata p opts.UserMetadata <;>
+            simp_all [List.length_pos_iff, List.length_eq_zero_iff])))
+
+/-- **the translated table lookup is the model's** (verifier side): for every signature algorithm the digest
+algorithm is the one the model derives from the regenerated tables -/
+theorem source_verifier_digest_matches_model (k : KeySpec) :
+    (GoLite.Map.get? verifier.algorithms (srcKeySpec k).SignatureAlgorithm.Hash).map digestName =
+      verifierDigestAlg (algName (srcKeySpec k).SignatureAlgorithm) ∧
+    verifierDigestAlg (algName (srcKeySpec k).SignatureAlgorithm) = some (specDigestAlg k) := by
+  cases k <;> decide
+
+/-- the availability guard: the zero algorithm (an envelope whose algorithm notation-core-go does not know) is refused -/
+theorem source_verifyBlobTail_unknown_algorithm (env : verifier.VEnv)
+    (gen : digest.Algorithm → ocispec.Descriptor × Option GoLite.Err) (md : GoLite.Map String String) (p : envelope.Payload) :
+    tailAccepts env gen md .zero p = false := by
+  have : GoLite.Map.get? verifier.algorithms signature.Algorithm.zero.Hash = none := by decide
+  simp [tailAccepts, this]
+
+/-! #### non-vacuity: the translated functions run -/
+
+def exEnv : BlobEnv :=
+  { parseMediaType := fun s => if s == "text/plain" then none else some ⟨"error"⟩,
+    copy := fun _ _ => .ok 3, digest := fun a _ => digestName a ++ ":abc",
+    signerSignBlob := fun gen _ => (some [1], none, (gen .SHA384).2),
+    verifierVerifyBlob := fun _ _ _ => (some ⟨1, some ⟨⟨"payload"⟩, ⟨.AlgorithmES384⟩⟩⟩, none),
+    unmarshalPayload := fun _ _ => (⟨⟨"text/plain", "SHA384:abc", 3, [("k", "v")]⟩⟩, none) }
+
+example : getDescriptorFunc exEnv (some ⟨0⟩) "text/plain" [("k", "v")] .SHA384 =
+    (⟨"text/plain", "SHA384:abc", 3, [("k", "v")]⟩, none) := by decide
+example : (getDescriptorFunc exEnv (some ⟨0⟩) "text/plain" [("io.cncf.notary.x", "v")] .SHA384).2.isSome = true := by decide
+example : SignBlob exEnv (some ⟨⟩) (some ⟨0⟩)
+    ⟨⟨"application/cose", 2000000000⟩, "text/plain", [("k", "v")]⟩ = (some [1], none, none) := by decide
+example : (SignBlob exEnv (some ⟨⟩) (some ⟨0⟩) ⟨⟨"application/cose", 1500000000⟩, "text/plain", []⟩).2.2.isSome = true := by decide
+example : (SignBlob exEnv (some ⟨⟩) (some ⟨0⟩) ⟨⟨"application/cose", 0⟩, "application/", []⟩).2.2.isSome = true := by decide
+example : VerifyBlob exEnv (some ⟨⟩) (some ⟨0⟩) [1] ⟨⟨"application/cose", [], ""⟩, ""⟩ =
+    (⟨"text/plain", "SHA384:abc", 3, [("k", "v")]⟩, some ⟨1, some ⟨⟨"payload"⟩, ⟨.AlgorithmES384⟩⟩⟩, none) := by decide
+example : (VerifyBlob exEnv (some ⟨⟩) (some ⟨0⟩) [] ⟨⟨"application/cose", [], ""⟩, ""⟩).2.2.isSome = true := by decide
+example : envelope.SanitizeTargetArtifact ⟨"m", "d", 7, [("a", "b")], ["u"], "data", some "linux", "t"⟩ =
+    ⟨"m", "d", 7, [("a", "b")]⟩ := by decide
+example : signer.getDescriptor ⟨.KeyTypeEC, 384⟩ (fun a => (⟨"", digestName a, 0, []⟩, none)) =
+    (⟨"", "SHA384", 0, []⟩, none) := by decide
+example : (signer.getDescriptor ⟨.KeyTypeEC, 512⟩ (fun a => (⟨"", digestName a, 0, []⟩, none))).2.isSome = true := by decide
+example : (verifier.verifyBlobTail ⟨fun _ _ => none⟩ (fun a => (⟨"", digestName a, 3, []⟩, none)) ⟨[]⟩ none
+    ⟨⟨⟨"c"⟩, ⟨.AlgorithmPS512⟩⟩, none⟩ ⟨⟨"text/plain", "SHA512", 3, []⟩⟩).2 = none := by decide
+example : (verifier.verifyBlobTail ⟨fun _ _ => none⟩ (fun a => (⟨"", digestName a, 2, []⟩, none)) ⟨[]⟩ none
+    ⟨⟨⟨"c"⟩, ⟨.AlgorithmPS512⟩⟩, none⟩ ⟨⟨"text/plain", "SHA512", 3, []⟩⟩).2.isSome = true := by decide
+
+end Tie
 end NotationModel.C07
